@@ -112,6 +112,8 @@ def real_dis(w, opts, lower, wrap, fmt, a, code):
         return 'err format'
     except (TypeError, ValueError):
         return 'err type'
+    except Exception as e:
+        return f'err {type(e).__name__}'
     i = ins[0]
     return f'ok {i.variant} {",".join(map(str, i.bytes))} | {i.operation}'
 
@@ -181,6 +183,8 @@ def corr_trace(chk, w):
             out = 'err key'
         except TypeError:
             out = 'err type'
+        except Exception as e:
+            out = f'err {type(e).__name__}'
         ops.append(f'tr {fmt} {a} ' + ' '.join(map(str, code)))
         impl.append(out)
         chk.case(tag, ('tr', tbl, op, a, d, n), {'op': ops[-1], 'impl': out} if (tbl, op, a) == ('FD', 0x36, 65534) else None)
@@ -217,6 +221,8 @@ def corr_decode(chk, w):
             out = f'ok {e[1]} {int(e[4].startswith("DEFB"))}'
         except KeyError:
             out = 'err key'
+        except Exception as e:
+            out = f'err {type(e).__name__}'
         ops.append(f'dec {a} ' + ' '.join(map(str, code)))
         impl.append(out)
         chk.case(tag, ('dec', tbl, op, a), {'op': ops[-1], 'impl': out} if (tbl, op, a) == ('DDCB', 0x06, 65533) else None)
@@ -249,6 +255,8 @@ def corr_timing(chk, w):
             out = 'err key'
         except IndexError:
             out = 'err index'
+        except Exception as e:
+            out = f'err {type(e).__name__}'
         ops.append(f'tm {int(bool(is_def))} ' + ' '.join(map(str, bs)))
         impl.append(out)
         chk.case(tag, ('tm', is_def, tuple(bs)), {'op': ops[-1], 'impl': out} if tuple(bs[:2]) == (0xED, 0xB0) else None)
@@ -308,12 +316,27 @@ def check_case(w, impls, tbl, op, a, d, n, opts, run_sims=True):
     code = code_of(tbl, op, d, n)
     w.poke(a, code)
     bad = []
-    text_tr, L = w.traceutils.disassemble(w.mem, a, '$', '02X', '04X')
+    tag = f'e2e:{tbl}:lookup-failed'
+    try:
+        text_tr, L = w.traceutils.disassemble(w.mem, a, '$', '02X', '04X')
+    except Exception as e:
+        return [(f'lookup:traceutils.disassemble:{tbl}:{type(e).__name__}', f'{tbl} {op:02X} at {a} (bytes {code}): traceutils.disassemble raises '
+                 f'{type(e).__name__}({e})')], tag
     fits = a + L <= 65536
-    dec = next(w.opcodes.decode(w.mem, a, a + 1))
+    try:
+        dec = next(w.opcodes.decode(w.mem, a, a + 1))
+    except Exception as e:
+        bad.append((f'lookup:opcodes.decode:{tbl}:{type(e).__name__}', f'{tbl} {op:02X} at {a} (bytes {code}): opcodes.decode raises '
+                    f'{type(e).__name__}({e}); traceutils.disassemble gives "{text_tr}" ({L} byte(s))'))
+        dec = None
     ins = {}
     for wrap in (False, True):
-        i = w.dis(opts, False, wrap, True).disassemble(a, a + 1, 'n')[0]
+        try:
+            i = w.dis(opts, False, wrap, True).disassemble(a, a + 1, 'n')[0]
+        except Exception as e:
+            bad.append((f'lookup:Disassembler.disassemble:{tbl}:{type(e).__name__}', f'{tbl} {op:02X} at {a} (bytes {code}): Disassembler.disassemble '
+                        f'(Opcodes={opt_names(opts)}, wrap={wrap}) raises {type(e).__name__}({e}); traceutils.disassemble gives "{text_tr}" ({L} byte(s))'))
+            return bad, tag
         ins[wrap] = i
         nb = len(i.bytes)
         is_defb = i.operation.upper().startswith('DEF')
@@ -336,7 +359,7 @@ def check_case(w, impls, tbl, op, a, d, n, opts, run_sims=True):
             bad.append((f'text:defb-vs-instruction:{tbl}', f'{tbl} {op:02X} at {a}: Disassembler (Opcodes=ALL) prints "{i.operation}", '
                         f'traceutils.disassemble prints "{text_tr}"'))
     want = min(L, 65536 - a)
-    if dec[1] != want:
+    if dec is not None and dec[1] != want:
         bad.append((f'length:decode-vs-trace:{tbl}', f'{tbl} {op:02X} at {a}: opcodes.decode sizes "{dec[4]}" as {dec[1]}, '
                     f'traceutils.disassemble says {L} (Disassembler: {len(ins[False].bytes)})'))
     # static timing
@@ -345,7 +368,7 @@ def check_case(w, impls, tbl, op, a, d, n, opts, run_sims=True):
         i = ins[wrap]
         try:
             timings[wrap] = w.z80.get_timing(i)
-        except (KeyError, IndexError) as e:
+        except Exception as e:
             bad.append((f'timing-lookup:{tbl}:{type(e).__name__}', f'{tbl} {op:02X} at {a}: get_timing raises {type(e).__name__}({e}) for '
                         f'"{i.operation}" {list(i.bytes)} (Opcodes={opt_names(opts)})'))
             timings[wrap] = 'error'
@@ -417,6 +440,17 @@ def e2e(chk, w, impls):
                      {'slot': f'{tbl}:{op:02X}', 'a': a, 'opts': opts} if (tbl, op, a) in (('ED', 0xB0, 65535), ('FD', 0x21, 0x8000)) else None)
             for key, desc in bad:
                 chk.violation(key, desc, {'kind': 'slot', 'tbl': tbl, 'op': op, 'a': a, 'd': dd, 'n': nv, 'opts': opts, 'sims': sims, 'key': key})
+    # directed operand sweep (decoders only): the sign boundary of the index displacement for every DD/FD/DDCB/FDCB slot,
+    # and the relative-jump offsets around the sign boundary at the ends of memory
+    sweep = [(tbl, op, 0x8000, dd, 0x81) for tbl in ('DD', 'FD', 'DDCB', 'FDCB') for op in range(256)
+             if not (tbl in ('DD', 'FD') and op == 0xCB) for dd in (0x00, 0x7F, 0x80, 0xFF)]
+    sweep += [('MAIN', op, a, dd, 0) for op in (0x10, 0x18, 0x20, 0x28, 0x30, 0x38) for dd in (0x00, 0x01, 0x7E, 0x7F, 0x80, 0x81, 0xFE, 0xFF)
+              for a in (0, 1, 126, 127, 0x8000, 65407, 65408, 65534)]
+    for tbl, op, a, dd, nv in sweep:
+        bad, tag = check_case(w, impls, tbl, op, a, dd, nv, 255, run_sims=False)
+        chk.case('e2e:operand-sweep', ('e2e-operands', tbl, op, a, dd))
+        for key, desc in bad:
+            chk.violation(key, desc, {'kind': 'slot', 'tbl': tbl, 'op': op, 'a': a, 'd': dd, 'n': nv, 'opts': 255, 'sims': False, 'key': key})
     if chk.thorough:
         # every subset of the seven options that touch after_ED, for every ED slot; XYCB on/off for every DDCB/FDCB slot
         for op in range(256):
@@ -431,7 +465,10 @@ def e2e(chk, w, impls):
     for tbl, op in slots():
         code = code_of(tbl, op, 5, 7)
         w.poke(0x8000, code)
-        text, L = w.traceutils.disassemble(w.mem, 0x8000, '', '', '')
+        try:
+            text, L = w.traceutils.disassemble(w.mem, 0x8000, '', '', '')
+        except Exception:
+            continue        # reported per slot by check_case
         if text.startswith('DEFB'):
             continue
         data = asm.assemble(text, 0x8000)
@@ -440,13 +477,37 @@ def e2e(chk, w, impls):
             continue
         try:
             t = w.z80.get_timing(Instr(0x8000, text, list(data)))
-        except (KeyError, IndexError) as e:
+        except Exception as e:
             chk.violation(f'timing-lookup:assembled:{type(e).__name__}', f'get_timing raises {type(e).__name__}({e}) for "{text}" assembled to {list(data)}',
                           {'kind': 'asm', 'tbl': tbl, 'op': op, 'key': f'timing-lookup:assembled:{type(e).__name__}'})
             continue
         if t is None:
             chk.violation('timing-missing:assembled', f'get_timing returns None for "{text}" assembled to {list(data)}',
                           {'kind': 'asm', 'tbl': tbl, 'op': op, 'key': 'timing-missing:assembled'})
+
+
+class ToolTimeout(BaseException):
+    pass
+
+
+TOOL_CPU_LIMIT = 60    # CPU seconds of this process per tool run (sna2skool on the all-opcodes image takes about 1)
+
+
+def with_cpu_limit(fn, *args):
+    """Run fn under a CPU-time watchdog (independent of machine load): a decoder that reports a size of 0 makes
+    sna2ctl / sna2skool loop forever; that must be reported, not hang the check."""
+    import signal
+
+    def on_timer(signum, frame):
+        raise ToolTimeout(f'no result after {TOOL_CPU_LIMIT} CPU seconds')
+
+    old = signal.signal(signal.SIGPROF, on_timer)
+    signal.setitimer(signal.ITIMER_PROF, TOOL_CPU_LIMIT)
+    try:
+        return fn(*args)
+    finally:
+        signal.setitimer(signal.ITIMER_PROF, 0)
+        signal.signal(signal.SIGPROF, old)
 
 
 def tool_e2e(chk, w, impls):
@@ -487,7 +548,7 @@ def tool_e2e(chk, w, impls):
         out, err = io.StringIO(), io.StringIO()
         try:
             with contextlib.redirect_stdout(out), contextlib.redirect_stderr(err):
-                sna2skool.main(['-o', str(org), '-c', ctlfile, '-I', f'Opcodes={names}', '-I', 'Timings=1', binfile])
+                with_cpu_limit(sna2skool.main, ['-o', str(org), '-c', ctlfile, '-I', f'Opcodes={names}', '-I', 'Timings=1', binfile])
         except BaseException as e:
             chk.case('tool:sna2skool', ('tool', names))
             chk.violation(f'tool:sna2skool-timings:{type(e).__name__}', f'sna2skool -I Opcodes={names} -I Timings=1 on an image holding every '
@@ -508,7 +569,10 @@ def tool_e2e(chk, w, impls):
                               {'kind': 'tool', 'opcodes': names, 'key': f'tool:sna2skool-boundary:{tbl}'})
                 continue
             operation, comment = stmts[a]
-            L = w.traceutils.disassemble(w.mem, a)[1]
+            try:
+                L = w.traceutils.disassemble(w.mem, a)[1]
+            except Exception:
+                continue    # reported per slot by check_case
             if nxt[a] - a != L:
                 chk.violation(f'tool:sna2skool-length:{tbl}', f'sna2skool -I Opcodes={names}: "{operation}" at {a} ({tbl} {op:02X}) occupies '
                               f'{nxt[a] - a} byte(s), the trace disassembler and the simulator say {L}',
@@ -523,7 +587,7 @@ def tool_e2e(chk, w, impls):
     out, err = io.StringIO(), io.StringIO()
     try:
         with contextlib.redirect_stdout(out), contextlib.redirect_stderr(err):
-            sna2ctl.main(['-o', str(org), binfile])
+            with_cpu_limit(sna2ctl.main, ['-o', str(org), binfile])
         chk.case('tool:sna2ctl', ('tool', 'sna2ctl'))
     except BaseException as e:
         chk.violation(f'tool:sna2ctl:{type(e).__name__}', f'sna2ctl on an image holding every opcode sequence raises {type(e).__name__}: {e}',
@@ -583,9 +647,10 @@ def run(chk):
                 'closure facts vs directed single steps of the real Python/C simulators. e2e: for every slot and address the four '
                 'real decoders and one step of the four real simulators (flags all clear / all set, B/BC at 1 and at >1, so both '
                 'paths of every conditional or repeating instruction run) compared directly: lengths, operation text under the same '
-                'operand format, get_timing vs T-states taken, no KeyError; z80.Assembler-emitted sequences; sna2skool -I Timings=1 '
-                'and sna2ctl on an image holding every opcode sequence. non-trivial = distinct (tool, slot, configuration, address, '
-                'operands)')
+                'operand format, get_timing vs T-states taken, no lookup failing in any of the four decoders (any exception is reported '
+                'with the opcode sequence); z80.Assembler-emitted sequences; sna2skool -I Timings=1 and sna2ctl on an image holding '
+                'every opcode sequence, under a CPU-time watchdog (a decoder size of 0 makes them loop forever). non-trivial = distinct '
+                '(tool, slot, configuration, address, operands)')
     chk.trusted += ['translate/gen_c07.py: table dump (imports the four modules from the repo) and AST path analysis of the closures '
                     '(the derived T-state sets / sizes are re-proved against the generated simulator model on every run)',
                     'hand models Model/InstrDecode.lean of Disassembler.disassemble, traceutils.disassemble, opcodes.decode, '
@@ -650,7 +715,7 @@ def replay(chk, data):
         bs = w.z80.Assembler().assemble(text, 0x8000)
         try:
             return w.z80.get_timing(Instr(0x8000, text, list(bs))) is None
-        except (KeyError, IndexError):
+        except Exception:
             return True
     from simcheck import build_impls
     impls, _ = build_impls(chk)
